@@ -188,11 +188,12 @@ func tryFindFirstCharClass(node *RegexNode, ccIn **CharSet) int {
 		}
 		start := tryFindFirstCharClass(node.Children[branchStart], ccIn)
 		next := tryFindFirstCharClass(node.Children[branchStart+1], ccIn)
-		if start == -1 || next == -1 {
-			return -1
-		}
+		// a branch that could not be analysed spoils the result even when the other one is nullable
 		if start == 0 || next == 0 {
 			return 0
+		}
+		if start == -1 || next == -1 {
+			return -1
 		}
 		return 1
 
